@@ -13,7 +13,7 @@ use crate::scen::mutate;
 use crate::util::{catch, seed_from_env, Rng, Summary};
 use crate::val::{self, GenOpts, V};
 
-const KINDS: [&str; 16] = ["parser_new", "rh_enter", "chunk_read", "rh_copy", "rh_error", "rh_misbehaving", "event_new", "event_fail",
+const KINDS: [&str; 17] = ["enc_char", "parser_new", "rh_enter", "chunk_read", "rh_copy", "rh_error", "rh_misbehaving", "event_new", "event_fail",
     "chunk_doc_start", "chunk_doc_end", "chunk_scalar", "chunk_collection", "chunk_stream_end", "event_delete", "parser_delete", "readstate_free"];
 
 struct Ctx {
@@ -81,7 +81,24 @@ pub fn record(out_path: &str, count: u64, panics: bool) {
     }
     big.push_str("\"\n---\n- a\n- b\n");
     let mut inputs: Vec<(String, Vec<u8>)> = vec![("big-multibyte".into(), big.into_bytes()), ("lone-alias".into(), b"*y".to_vec()), ("empty".into(), vec![]),
-        ("evil".into(), b"---\nevil: true".to_vec())];
+        ("evil".into(), b"---\nevil: true".to_vec()),
+        // DOCUMENT-START events that own heap data: version and tag directives
+        ("directives".into(), b"%YAML 1.1\n%TAG !e! tag:example.com,2000:app/\n%TAG ! tag:example.com,2000:\n---\n!e!thing {a: !x b}\n...\n%YAML 1.1\n---\n- c\n...\n%TAG !f! tag:f,1:\n--- !f!y d\n".to_vec()),
+        ("directive-then-error".into(), b"%YAML 1.1\n%TAG !e! tag:example.com,2000:\n---\n- [unclosed\n".to_vec())];
+    // every boundary of the surrogate ranges, unpaired and paired, in both byte orders
+    for (i, units) in [vec![0xd7ffu16], vec![0xd800], vec![0xdbff], vec![0xdc00], vec![0xdfff], vec![0xe000], vec![0xd800, 0xdc00], vec![0xdbff, 0xdfff],
+                       vec![0xdfff, 0xd800], vec![0xd800, 0xd800], vec![0xdbff, 0xe000], vec![0xfffe], vec![0xffff]].into_iter().enumerate() {
+        for le in [true, false] {
+            let mut b: Vec<u8> = vec![];
+            let mut all: Vec<u16> = vec![0xfeff, b'a' as u16, b':' as u16, b' ' as u16, b'"' as u16];
+            all.extend(units.iter());
+            all.extend([b'"' as u16, b'\n' as u16]);
+            for u in all {
+                b.extend_from_slice(&if le { u.to_le_bytes() } else { u.to_be_bytes() });
+            }
+            inputs.push((format!("utf16-surrogate-boundary-{i}-{}", if le { "le" } else { "be" }), b));
+        }
+    }
     for i in 0..count {
         let mut rng = Rng::derive(seed, "chunker", i);
         let opts = GenOpts { max_depth: 3, max_width: 3, ..GenOpts::streaming() };
